@@ -6,6 +6,13 @@ export GOFLAGS=-mod=mod GOPROXY=off GOSUMDB=off GOTOOLCHAIN=local
 mkdir -p build/bin evidence replays
 cp /repo/go.sum harness/go.sum
 (cd harness && go build -tags verif -o ../build/bin/acra-vh ./cmd/acra-vh)
-./build/bin/acra-vh consts > coq/Gen/Consts.v.new && mv coq/Gen/Consts.v.new coq/Gen/Consts.v
+python3 - <<'PY'
+import subprocess, sys
+sys.path.insert(0, '.')
+from checks_config import GENERATORS
+for name, args in GENERATORS:
+    out = subprocess.run(['./build/bin/acra-vh'] + args, check=True, capture_output=True, text=True).stdout
+    open('coq/Gen/' + name, 'w').write(out)
+PY
 (cd coq && coq_makefile -f _CoqProject -o Makefile >/dev/null && timeout 3000 make -j16 >/dev/null)
 echo setup ok
